@@ -54,6 +54,9 @@ type Router struct {
 	sock          knxnet.Socket
 	config        RouterConfig
 	inbound       chan cemi.Message
+	overflowMu    sync.Mutex
+	overflow      []cemi.Message
+	draining      bool
 	sendMu        sync.Mutex
 	retainer      *list.List
 	postSendPause time.Duration
@@ -87,20 +90,51 @@ func (router *Router) resendLost(count uint16) {
 	go router.sendMultiple(messages)
 }
 
-// pushInbound sends the message through the inbound channel. If the sending blocks, it will launch
-// a goroutine which will do the sending.
+// pushInbound sends the message through the inbound channel. If the sending blocks, the message
+// is queued and a goroutine hands the queued messages over in the order they were pushed.
 func (router *Router) pushInbound(msg cemi.Message) {
-	select {
-	case router.inbound <- msg:
+	router.overflowMu.Lock()
+	defer router.overflowMu.Unlock()
 
-	default:
-		go func() {
-			// Since this goroutine decouples from the server goroutine, it might try to send when
-			// the server closed the inbound channel. Sending to a closed channel will panic. But we
-			// don't care, because cool guys don't look at explosions.
-			defer func() { recover() }()
-			router.inbound <- msg
-		}()
+	// Nothing is waiting in front of this message: try to deliver it right away.
+	if !router.draining {
+		select {
+		case router.inbound <- msg:
+			return
+
+		default:
+		}
+	}
+
+	router.overflow = append(router.overflow, msg)
+
+	if !router.draining {
+		router.draining = true
+		go router.drainInbound()
+	}
+}
+
+// drainInbound delivers the queued messages one by one, oldest first.
+func (router *Router) drainInbound() {
+	// Since this goroutine decouples from the server goroutine, it might try to send when
+	// the server closed the inbound channel. Sending to a closed channel will panic. But we
+	// don't care, because cool guys don't look at explosions.
+	defer func() { recover() }()
+
+	for {
+		router.overflowMu.Lock()
+
+		if len(router.overflow) == 0 {
+			router.draining = false
+			router.overflowMu.Unlock()
+			return
+		}
+
+		msg := router.overflow[0]
+		router.overflow = router.overflow[1:]
+		router.overflowMu.Unlock()
+
+		router.inbound <- msg
 	}
 }
 
